@@ -69,35 +69,48 @@ verif_proof! { [C15 C30]
     fn c15_time_index_roundtrip_1() { roundtrip::<1>(); }
 }
 
-// C30/C22: read_track on arbitrary bytes and an arbitrary declared length:
-// no panic; Ok only for a well-formed, sorted track whose length matches.
+// C30/C22: read_track on arbitrary track bytes and an arbitrary declared length: no panic; Ok only
+// for a well-formed, sorted track whose declared length matches.  The declared entry COUNT is
+// concrete per instance (a symbolic count is a symbolic allocation size); magic, entries, file
+// length and declared length are symbolic.
+fn arbitrary_track(count: u64) {
+    let mut img: [u8; MEM_MAX] = kani::any();
+    let cb = count.to_le_bytes();
+    unrolled_128!(8usize, i => { img[4 + i] = cb[i]; });
+    let flen: usize = kani::any();
+    kani::assume(flen <= 44);
+    let mut disk = MemDisk::with(img, flen);
+    let length: u64 = kani::any();
+    let r = read_track(&mut disk, 0, length);
+    match &r {
+        Ok(v) => {
+            assert!(img[0] == b'M' && img[1] == b'V' && img[2] == b'T' && img[3] == b'I', "[C30] read_track accepted a wrong magic");
+            assert!(v.len() as u64 == count, "[C30] read_track returned a different number of entries than declared");
+            assert!(length == 12 + 16 * count, "[C30] read_track accepted a length inconsistent with the entry count");
+            assert!(length as usize <= flen, "[C30] read_track returned entries beyond the end of the data");
+            let mut j = 1;
+            while j < v.len() {
+                assert!(le(&v[j - 1], &v[j]), "[C30] read_track accepted unsorted entries");
+                j += 1;
+            }
+            kani::cover!(true, "track accepted");
+        }
+        Err(_) => {}
+    }
+    kani::cover!(r.is_err(), "rejected");
+    leak(r);
+}
+verif_proof! { [C30 C22 C20]
+    #[kani::unwind(4)]
+    fn c30_time_index_arbitrary_0() { arbitrary_track(0); }
+}
+verif_proof! { [C30 C22 C20]
+    #[kani::unwind(4)]
+    fn c30_time_index_arbitrary_1() { arbitrary_track(1); }
+}
 verif_proof! { [C30 C22 C20]
     #[kani::unwind(5)]
-    fn c30_time_index_arbitrary_bytes() {
-        let img: [u8; MEM_MAX] = kani::any();
-        let flen: usize = kani::any();
-        kani::assume(flen <= 44);
-        let mut disk = MemDisk::with(img, flen);
-        let length: u64 = kani::any();
-        kani::assume(length <= 64);
-        let r = read_track(&mut disk, 0, length);
-        match &r {
-            Ok(v) => {
-                assert!(img[0] == b'M' && img[1] == b'V' && img[2] == b'T' && img[3] == b'I', "[C30] read_track accepted a wrong magic");
-                assert!(length == 12 + 16 * v.len() as u64, "[C30] read_track accepted a length inconsistent with the entry count");
-                assert!(length as usize <= flen, "[C30] read_track returned entries beyond the end of the data");
-                let mut j = 1;
-                while j < v.len() {
-                    assert!(le(&v[j - 1], &v[j]), "[C30] read_track accepted unsorted entries");
-                    j += 1;
-                }
-                kani::cover!(v.len() == 2, "two entries accepted");
-            }
-            Err(_) => {}
-        }
-        kani::cover!(r.is_err(), "rejected");
-        leak(r);
-    }
+    fn c30_time_index_arbitrary_2() { arbitrary_track(2); }
 }
 
 // C22: the declared length and count come from the file: no panic for ANY length.
@@ -108,8 +121,7 @@ verif_proof! { [C22]
         img[0] = b'M'; img[1] = b'V'; img[2] = b'T'; img[3] = b'I';
         let count: u64 = kani::any();
         let cb = count.to_le_bytes();
-        let mut i = 0;
-        while i < 8 { img[4 + i] = cb[i]; i += 1; }
+        unrolled_128!(8usize, i => { img[4 + i] = cb[i]; });
         let mut disk = MemDisk::with(img, 12);
         let length: u64 = kani::any();
         let r = read_track(&mut disk, 0, length);
